@@ -117,6 +117,7 @@ func profileFor(prop, tier string, rng *PRNG) *Profile {
 		p.MidRate = 0.3
 		p.Seeded = 0.7
 	case "C10":
+		p.PUpgrade = 0.4 // restarts around (executed and skipped) upgrade heights
 		boost("rollback", 3)
 		boost("gov", 8)
 		boost("vest", 6) // coins that unlock with time at the burn address: what a node does about them must not depend on when it started
